@@ -282,6 +282,13 @@ func (maps *trackedMaps) processUnfiltered(ctx context.Context, ef *Filter, filt
 					return fmt.Errorf("%s: unable to create new tracked maps for slice: %w", op, err)
 				}
 				f := field
+				if !f.CanSet() {
+					// a struct held by value in the map is not settable, so its
+					// fields would silently stay unfiltered: filter an addressable
+					// copy, which replaces the map's value below.
+					f = reflect.New(field.Type()).Elem()
+					f.Set(field)
+				}
 				if err := ef.filterField(ctx, f, filterOverrides, newMaps, opt...); err != nil {
 					return fmt.Errorf("%s: unable to filter struct: %w", op, err)
 				}
